@@ -92,6 +92,7 @@ class Unit:
         self.rewrites = []
         self.loops = {}
         self.loopstarts = {}
+        self.afters = []
         self.ats = []
         self.params_drop, self.params_add = [], []
         self.header_lines = []
@@ -220,6 +221,7 @@ class Generator:
         rbstr_on = any(rw[0] == 'RBSTR' for rw in u.rewrites)
         rct_taken = set()
         guarded_spans = []
+        deref_bodies = {}
 
         def text_of(s, e):
             """source text of [s,e); when RBSTR is active, byte-string literals inside it are already in array-literal form
@@ -251,7 +253,7 @@ class Generator:
                     if not inside(st['span'], span):
                         continue
                     t = normtok(src[st['span'][0]:st['span'][1]].decode())
-                    if re.match(r'^let\w*=self\.get_shard\(.*\)\?;$', t) or re.match(r'^let(mut)?\w+=\w+\.(read|write)\(\)\.unwrap\(\);(//.*)?$', t):
+                    if re.match(r'^let\w*=self\.get_shard\(.*\)\?;$', t) or re.match(r'^let(mut)?\w+=(self\.)?\w+\.(read|write|lock)\(\)\.unwrap\(\);(//.*)?$', t):
                         txt = src[st['span'][0]:st['span'][1]].decode()
                         add_edit(st['span'][0], st['span'][1], '/*R2*/' + ''.join('\n' for ch in txt if ch == '\n'), 'R2')
                         n += 1
@@ -340,6 +342,26 @@ class Generator:
                     raise GenError(f'lost-anchor: for-loop #{k} in {u.fnpath}')
                 add_edit(fl[k]['iter'][0], fl[k]['iter'][0], f'{name}: ', 'RFOR')
                 applied.append(f'RFOR loop#{k} ghost iterator {name}')
+            elif kind == 'RDEREF':
+                # `for &x in E { B }` -> `for x__r in E { let x = *x__r; B }` (the reference pattern of a Copy item spelled out;
+                # Verus does not take `&` patterns in `for`)
+                n = 0
+                for l in fn['loops']:
+                    if l['kind'] != 'for' or not inside(l['span'], span):
+                        continue
+                    ptxt = src[l['pat'][0]:l['pat'][1]].decode().strip()
+                    m = re.fullmatch(r'&\s*(\w+)', ptxt)
+                    if not m:
+                        continue
+                    name = m.group(1)
+                    add_edit(l['pat'][0], l['pat'][1], name + '__r', 'RDEREF')
+                    if src[l['body'][0]:l['body'][0] + 1] != b'{':
+                        raise GenError(f'unsupported: for-loop body of {u.fnpath} is not a block')
+                    deref_bodies[l['body'][0] + 1] = f' let {name} = *{name}__r;'
+                    n += 1
+                if n == 0:
+                    raise GenError(f'lost-anchor: RDEREF found no `for &x in ..` loop in {u.fnpath}')
+                applied.append(f'RDEREF x{n} (`for &x in E` -> `for x__r in E {{ let x = *x__r; ..`)')
             elif kind == 'RC':
                 # closure contract: `|p| body` -> `|p| -> (cr: T) ensures E { body }` (body verbatim)
                 k, rty, ens = int(rw[1]), rw[2], rw[3]
@@ -426,6 +448,15 @@ class Generator:
             if src[l['body'][0]:l['body'][0] + 1] != b'{':
                 raise GenError(f'unsupported: loop #{k} body of {u.fnpath} is not a block')
             add_edit(l['body'][0] + 1, l['body'][0] + 1, ('SPLICE', [(tl, '\n' + line) if i == 0 else (tl, line) for i, (tl, line) in enumerate(text)]), 'loopstart')
+        for (prefix, k, text) in u.afters:
+            # proof text spliced right AFTER a statement (for facts about what the statement just did)
+            pre = normtok(prefix)
+            cands = [s for s in fn['stmts'] if inside(s['span'], span) and normtok(src[s['span'][0]:s['span'][1]].decode()).startswith(pre)]
+            if len(cands) <= k:
+                raise GenError(f'lost-anchor: after-stmt "{prefix}" #{k} in {u.fnpath}')
+            add_edit(cands[k]['span'][1], cands[k]['span'][1], ('SPLICE', [(tl, '\n' + line) if i == 0 else (tl, line) for i, (tl, line) in enumerate(text)]), 'after')
+        for pos, txt in deref_bodies.items():
+            add_edit(pos, pos, txt, 'RDEREF-let')
         for (prefix, k, text) in u.ats:
             pre = normtok(prefix)
             c = [s for s in fn['stmts'] if inside(s['span'], span) and normtok(src[s['span'][0]:s['span'][1]].decode()).startswith(pre)]
@@ -439,7 +470,7 @@ class Generator:
                     raise GenError(f'unsupported: rewrite {x[3]} inside a guard / else-body moved by RGUARD in {u.fnpath}')
         # an RBSTR edit inside a larger replacement is already carried by that replacement (text_of)
         edits = [x for x in edits if not (x[3] == 'RBSTR' and any(y is not x and y[3] != 'RBSTR' and y[0] <= x[0] and x[1] <= y[1] and not isinstance(y[2], tuple) for y in edits))]
-        edits.sort(key=lambda e: (e[0], e[1]))
+        edits.sort(key=lambda e: (e[0], e[1], 0 if e[3] == 'RDEREF-let' else 1))
         for a, b in zip(edits, edits[1:]):
             if b[0] < a[1]:
                 raise GenError(f'unsupported: overlapping rewrites in {u.fnpath}: {a[3]} / {b[3]}')
@@ -599,6 +630,11 @@ class Generator:
                     k = int(args[2][1:]) if len(args) > 2 else 0
                     lst = []
                     cur.ats.append((args[1], k, lst))
+                    pending = lst
+                elif d == 'after':
+                    k = int(args[2][1:]) if len(args) > 2 else 0
+                    lst = []
+                    cur.afters.append((args[1], k, lst))
                     pending = lst
                 elif d == 'sig':
                     self.emit_sig(cur, args[1], 'drop-self' in args[2:], path, lineno)
